@@ -22,4 +22,4 @@ def run(rep, tier, seed):
                        '(+ possibly the one in flight); distinct_nontrivial = distinct crash images recovered')
 
 def replay(rep, path):
-    print(open(path).read()[:3000]); return 1
+    return k3check.replay_crash(rep, path)
